@@ -64,6 +64,39 @@ def runeOffsetTicks : Nat → Bytes → Nat
     | [] => 1
     | _ => 1 + runeOffsetTicks i (s.drop (decodeRune s).2)
 
+/-- the measuring loop of `slice` on a string (`for i := start; i < stop; i++ { _, sz := DecodeRuneInString(s[idx:]);
+    idx += sz }`, `runesLen k s`) -/
+def runesLenTicks : Nat → Bytes → Nat
+  | 0, _ => 0
+  | k + 1, s => match s with
+    | [] => 0
+    | _ => 1 + runesLenTicks k (s.drop (decodeRune s).2)
+
+/-- decode steps of the model's `slice` on the string `s`, following `Jmes.slice` (after `RuneCountInString`) -/
+def sliceStringTicks (s : Bytes) (start stop : Int) : Nat :=
+  match clamp1 (runeCount s) start stop with
+  | none => 0
+  | some (a, b) => dropRunesTicks a.toNat s + runesLenTicks (b - a).toNat (dropRunes a.toNat s)
+
+/-- decode steps of the model's `sliceStep` on the string `s`, following `Jmes.sliceStep` (after
+    `RuneCountInString`) -/
+def sliceStepStringTicks (s : Bytes) (start stop step : Int) : Nat :=
+  let l : Int := runeCount s
+  match clampStep l start stop step with
+  | none => 0
+  | some (a, n) =>
+    if step > 0 then dropRunesTicks a.toNat s + walkFwdTicks step.toNat n.toNat (dropRunes a.toNat s)
+    else dropLastRunesTicks (l - 1 - a).toNat s
+      + walkBwdTicks (-step).toNat n.toNat (dropLastRunes (l - 1 - a).toNat s)
+
+/-- iterations of the conversion of the `start` argument of `find_first`/`find_last`, following `startOffset` -/
+def startOffsetTicks (s : Bytes) (i : Int) : Nat :=
+  if i < 0 then 0 else if i > s.length then 0 else runeOffsetTicks i.toNat s
+
+/-- iterations of the conversion of the `finish` argument, following `finishOffset` -/
+def finishOffsetTicks (s : Bytes) (j : Int) : Nat :=
+  if j < 0 then 0 else if j > s.length then 0 else runeOffsetTicks j.toNat s
+
 /-- number of replacements `strings.Replace(s, old, new, n)` performs for a non-empty `old` (`replaceAux`): the
     size of the result is `|s| + replacements · (|new| - |old|)` -/
 def replaceTicks : Nat → Bytes → Bytes → Option Nat → Nat
